@@ -394,21 +394,44 @@ def check_srcmap(exp_seq, act_tokens, entries, pos, which, import_spans, name_ch
             findings.append(("srcmap", which, "entries out of order at generated column %d" % dc))
         prev = (dl, dc)
         by_col.setdefault((dl, dc), []).append(en)
+    stack = []          # open brackets of the output: the source positions their entries point at (None: not mapped)
     for e, a in zip(exp_seq, act):
+        tk = e["tok"]["k"]
+        is_open = tk in ("{", "(", "[", "func")
+        is_close = tk in ("}", ")", "]")
         if e["raw"]:
+            if is_open:
+                stack.append(None)
+            elif is_close and stack:
+                stack.pop()
             continue
         ens = by_col.get((a["line"], a["col"]))
         if not ens:
             findings.append(("srcmap", which, "no entry at the generated column %d of token %r" % (a["col"], a["text"])))
+            if is_open:
+                stack.append(None)
+            elif is_close and stack:
+                stack.pop()
             continue
         cands = expected_src_positions(e, pos)
         key = tuple(e["prov"])
         span = import_spans.get(key)
+        opener = None
+        if is_open:
+            stack.append([(en[2], en[3]) for en in ens])
+        elif is_close and stack:
+            opener = stack.pop()
         ok = False
         for en in ens:
             p = (en[2], en[3])
             if p in cands or (span and span[0] <= p <= span[1]):
                 ok = True
+        if ok and is_close and opener and (key, "x") not in pos:
+            # a closing bracket without a place of its own in the source (synthesised by a rewrite) points at ITS opening
+            # bracket - the one it closes in the output, not another block's
+            if not any((en[2], en[3]) in opener for en in ens):
+                ok = False
+                cands = opener
         if not ok and cands:
             findings.append(("srcmap", which, "token %r at column %d maps to source %s, its source construct is at %s" % (
                 a["text"], a["col"], [(en[2], en[3]) for en in ens], cands)))
